@@ -29,7 +29,8 @@ RULE = ("exhaustive product of __conform__ behaviour (11) x provided (2) x alter
         "a real AdapterRegistry.adapter_hook installed in adapter_hooks; a random stream with longer chains and "
         "hooks raising AttributeError/TypeError; hooks and registry adapter factories that start a nested adaptation "
         "J(other, None) before answering (every hook call at depth d is checked to be hook(I_d, obj_d), the nested call is "
-        "judged like any other).  Every case is non-trivial (it runs the call); distinct = "
+        "judged like any other); the adapted object, the alternate and every value a step produces also range over falsy "
+        "objects and tuples of every shape.  Every case is non-trivial (it runs the call); distinct = "
         "distinct (conform kind, provided, hook kinds, alternate given, chain shape) signature")
 TRUSTED_BASE = ["interpreters Model/PyKernel.v and Model/CKernel.v (semantics of the statement languages and of the C API "
                 "calls that occur in IB__call__/IB__adapt__) and the fail-closed translators harness/translate/adapt_py.py, adapt_c.py",
@@ -211,6 +212,27 @@ def generate(run, tier):
                             for alt in (None, 1):
                                 for chain in ([], [_lvl(["delegate"], False)]):
                                     cases.append(_case("nested", chain, ["absent"], False, hs, alt, nested=nested))
+    # 3e. falsy and tuple-shaped participants: the adapted object, the alternate and every value a step
+    #     can produce (__conform__ / custom __adapt__ / hook / factory result) range over (), 0, '', [],
+    #     objects with __bool__ False / __len__ 0, singleton / pair / nested tuples; the protocol only
+    #     distinguishes None from not-None
+    k = 0
+    for of in ("plain", "tuple0", "tuple1", "tuple2", "nested", "falsy", "len0"):
+        for chain in ([], [_lvl(["value", 60], False)], [_lvl(["none"], False)], [_lvl(["delegate"], True)],
+                      [_lvl(None, False, ["true"])], [_lvl(["value", 60], False, None, True)]):
+            for conform in (["absent"], ["retvalue", 50], ["retnone"]):
+                for hs in ([], [["value", 10]], [["none"], ["value", 11]], [["value", 10], ["value", 11]]):
+                    for alt in (None, 2, 3):
+                        for provides in ((False, True) if of != "plain" else (False,)):
+                            cases.append(_case("flav", chain, conform, provides, hs, alt, objflavour=of,
+                                               flavour=k % 11))
+                            k += 1
+    for req in ("IReq", "ISubReq"):
+        for reg in ("IReq", "Interface"):
+            for fl in range(11):
+                for alt in (None, 2):
+                    cases.append({"kind": "registry", "req": req, "reg": reg, "factory_none": False,
+                                  "provides": False, "alt": alt, "flavour": fl})
     # 4. a real registry's adapter_hook
     for req in ("none", "IReq", "ISubReq"):
         for reg in ("none", "IReq", "Interface", "named", "None"):
@@ -244,6 +266,11 @@ def generate(run, tier):
                            how=rng.choice(["implementer", "directly", "also", "sub"]), kw=rng.random() < 0.3,
                            attach=rng.choice(ATTACH), watch=rng.random() < 0.6,
                            te0how=rng.choice(["partial", "arity"])))
+        if rng.random() < 0.4:
+            cases[-1]["flavour"] = rng.randrange(11)
+            cases[-1]["alt"] = rng.choice([None, 0, 1, 2, 3, 4])
+            if cases[-1]["attach"] != "slots":
+                cases[-1]["objflavour"] = rng.choice(["plain", "tuple0", "tuple1", "tuple2", "nested", "falsy", "len0"])
     return cases
 
 
@@ -382,7 +409,7 @@ def classify(case, obs):
             tuple((None if l["adapt"] is None else l["adapt"][0], l["other"],
                    None if l.get("prov") is None else l["prov"][0], l.get("plain", False)) for l in case["chain"]),
             case.get("objkind"), case.get("attach", "method"), case.get("watch", True),
-            json.dumps(case.get("nested"), sort_keys=True))
+            json.dumps(case.get("nested"), sort_keys=True), case.get("objflavour"), case.get("flavour"))
 
 
 def kind(case, obs):
@@ -394,7 +421,8 @@ def finding_key(case, obs, mode):
         return "registry/%s/%s/%s" % (mode, case["req"], case["reg"])
     chain = "-".join(("A" if l["adapt"] else "") + ("P" if l.get("prov") else "") + ("O" if l["other"] else "")
                      + ("s" if l.get("plain") else "") or "_" for l in case["chain"]) or "plain"
-    return "call/%s/%s/%s/%s" % (mode, chain, case["conform"][0], case.get("attach", "method"))
+    return "call/%s/%s/%s/%s/%s" % (mode, chain, case["conform"][0], case.get("attach", "method"),
+                                    case.get("objflavour", "plain"))
 
 
 def replay_text(case, obs, mode):
